@@ -100,6 +100,41 @@ def run(ctx):
         ctx.count('valuations_judged', judged)
         return judged
 
+    if ctx.shard == 0:
+        # replacements on atoms: only the named variable / the message itself may change, whatever else is there
+        from hpl.ast import HplFieldAccess, HplThisMessage, HplVarReference
+        atoms = {'@A': lambda: HplVarReference('@A'), '@B': lambda: HplVarReference('@B'), '@BA': lambda: HplVarReference('@BA'),
+                 'this': lambda: HplThisMessage(), '@B.x': lambda: HplFieldAccess(HplVarReference('@B'), 'x'),
+                 'x': lambda: HplFieldAccess(HplThisMessage(), 'x')}
+        ALIASES4 = ('A', 'B', 'BA', 'Z')
+        expect_v2t = {('@A', 'A'): 'this', ('@B', 'B'): 'this', ('@BA', 'BA'): 'this', ('@B.x', 'B'): 'x'}
+        expect_t2v = {('this', a): '@' + a for a in ALIASES4}
+        expect_t2v.update({('x', a): f'@{a}.x' for a in ALIASES4})
+
+        def build(want):
+            if want in atoms:
+                return atoms[want]()
+            if want.endswith('.x'):
+                return HplFieldAccess(HplVarReference(want[:-2]), 'x')
+            return HplVarReference(want)
+        for name, mk in atoms.items():
+            for alias in ALIASES4:
+                for api, fn, table in (('replace_var_with_this', replace_var_with_this, expect_v2t),
+                                       ('replace_this_with_var', replace_this_with_var, expect_t2v)):
+                    feats = {'api:' + api, 'shape:atomic-expression'}
+                    ctx.begin_case(feats)
+                    o = hplapi.outcome(fn, mk(), alias)
+                    ctx.evaluation(f'atom|{api}|{name}|{alias}', True)
+                    ctx.count('atomic_replacements_judged')
+                    want = table.get((name, alias), name)  # unchanged unless the table says otherwise
+                    exp = build(want)
+                    if o[0] != 'ok':
+                        viol('replace-raises', {'input': name, 'api': api, 'alias': alias, 'error': type(o[1]).__name__}, feats)
+                    elif str(o[1]) != str(exp) or type(o[1]).__name__ != type(exp).__name__:
+                        # (stored types may legitimately be narrower than in a fresh node: structure and classes only)
+                        viol('replace-atom', {'input': name, 'api': api, 'alias': alias, 'expected': want, 'observed': str(o[1]),
+                                              'observed_class': type(o[1]).__name__}, feats)
+
     for n in range(ctx.share(B['n'])):
         # ---------------- negate / join on predicates ------------------------------------------
         case = S.random_case(rng, gen.BOOL, maxdepth=rng.randrange(1, 5), n_aliases=rng.choice((0, 1, 2)))
